@@ -14,6 +14,13 @@ Three comparisons on every generated history of configuration calls (library + g
     object to which only the net configuration (Lean `MechConfig.net`, the formal definition of "net")
     is applied — names, counts, outputs, regimen, simulated values and sensitivities; and the reported
     regimen vs the protocol attached when `simulate` runs.
+    The same after EVERY call of the history (`C11.net_config/after_call`, against the observables of
+    `fresh (net prefix)`; the first deviating prefix is then run as a history of its own), and the laws of the
+    sensitivity setting on chi alone (`C11.sens_setting/*`: on after an accepted enable, off after an accepted
+    disable, kept by fix_parameters, never switched on by another call; `simulate` returns sensitivities
+    exactly when `has_sensitivities()`).  A share of the histories lives around the wrapper with NO free
+    parameter (every parameter fixed, in one call or several, before / after sensitivities were requested;
+    there: on / off / release one / release all / re-fix / every other call).
 (c) copies: same behaviour at the moment of copying (up to the documented reset of the sensitivity
     setting), and later calls on either object leave the other unchanged.
 """
@@ -34,6 +41,8 @@ REQUIRED_THEOREMS = [
     'C11_sens_count_matches_solver', 'C11_empty_grid_shape',
     'C11_canonical_reaches', 'C11_fresh_by_canonical_calls', 'C11_net_config_by_calls', 'C11_canon_structural',
     'C11_copy_same', 'C11_copy_same_history', 'C11_copy_independent', 'C11_flag_matches_solver',
+    'C11_only_enable_switches_on', 'C11_stays_off', 'C11_disable_switches_off', 'C11_enable_switches_on',
+    'C11_fix_keeps_sens_setting', 'C11_disable_then_stays_off',
     'C11_legacy_eq_now', 'C11_legacy_net_config_partial', 'C11_flag_matches_solver_legacy',
     'C11_direct_after_indirect_counterexample', 'C11_readmin_after_regimen_counterexample',
     'C11_rename_then_indirect_counterexample',
@@ -44,7 +53,9 @@ RULE = ('histories of set_administration / set_dosing_regimen / set_outputs / se
         'thorough: exhaustive to length 4 over a reduced alphabet on the one-compartment model and to length 3 '
         'over a second alphabet (wrap / fix / rename) on the erlotinib model and a third (two dosable '
         'compartments, depot outputs) on a generated two-compartment model and a fourth (re-selection of '
-        'sensitivities: same-size subsets, on / off, fix-swap through the wrapper), then random to length 20; non-trivial = history with >= 2 successful calls of different kinds; distinct = '
+        'sensitivities: same-size subsets, on / off, fix-swap through the wrapper) and to length 4 over a fifth '
+        '(wrapper with every parameter fixed: fix all / release / on / off / outputs), then random to length '
+        '20; in both tiers a share of the random histories is drawn around the wrapper with no free parameter; non-trivial = history with >= 2 successful calls of different kinds; distinct = '
         'distinct (model, sequence of call kinds with their outcome)')
 ASSUMPTIONS = [
     'the ODE solution is a function of the solver call record (refsim stands in for CVODES); C09/C10 are '
@@ -445,12 +456,13 @@ def public_part(o):
 # op generation (looks at the live object so that names are current)
 # ----------------------------------------------------------------------------------------
 class Gen:
-    def __init__(self, rng, kit):
+    def __init__(self, rng, kit, focus=None):
         self.rng = rng
         self.kit = kit
         self.counter = 0
         self.fix_counter = 0
         self.last_sens = None
+        self.focus = focus          # None | 'all_fixed' (histories around the wrapper with NO free parameter)
 
     def fresh_name(self, stem):
         self.counter += 1
@@ -464,8 +476,52 @@ class Gen:
         idx = self.rng.choice(len(seq), size=k, replace=False) if k else []
         return [seq[int(i)] for i in idx]
 
+    def new_fixed(self):
+        self.fix_counter += 1
+        return self.fix_counter - 1
+
+    def op_all_fixed(self, live):
+        """the boundary of `fix_parameters`: a wrapper whose parameters are ALL fixed (n_parameters() == 0, the
+        sensitivities are an empty block, the wrapped model's are off) — reached in one call or several, before or
+        after sensitivities were requested; there: on / off, release one / all, re-fix, and every other call.
+        None = draw from the general alphabet"""
+        rng = self.rng
+        m = live.m
+        u = rng.random()
+        if not live.wrapped:
+            if u < 0.45:
+                return ['wrap']
+            if u < 0.65:
+                return ['sens', bool(rng.random() < 0.7), None]
+            return None
+        cur = list(dict.fromkeys(str(x) for x in live.inner().parameters()))
+        free = list(dict.fromkeys(str(x) for x in m.parameters()))
+        fixed = [x for x in cur if x not in free]
+        if free:
+            if u < 0.4:
+                return ['fix', [[nme, self.new_fixed()] for nme in free]]          # fix whatever is still free
+            if u < 0.5 and len(free) >= 2:
+                k = int(rng.integers(1, len(free)))                                # ... in two calls
+                return ['fix', [[nme, self.new_fixed()] for nme in free[:k]]]
+            if u < 0.7:
+                return ['sens', bool(rng.random() < 0.6), None]
+            return None
+        if u < 0.36:
+            return ['sens', bool(rng.random() < 0.5), None]
+        if u < 0.54:
+            return ['fix', [[self.pick(fixed), None]]]                             # release one
+        if u < 0.6:
+            return ['fix', [[nme, None] for nme in fixed]]                         # release all
+        if u < 0.68:
+            return ['fix', [[self.pick(fixed), self.new_fixed()]]]                 # another value, still all fixed
+        return None
+
     def op(self, live):
         rng, kit = self.rng, self.kit
+        if self.focus == 'all_fixed':
+            op = self.op_all_fixed(live)
+            if op is not None:
+                return op
         kinds = ['out', 'pn', 'on', 'sens', 'sens', 'copy']
         if kit.pkpd:
             kinds += ['reg', 'reg']
@@ -767,12 +823,47 @@ def run_history(ctx, kit, source, length, label, sim_prob=0.15, copy_check=False
                       'fresh': {k: fobs.get(k) for k in ('params', 'n', 'outputs', 'regimen', 'hasSens', 'raised')}})
             # the fresh object itself must be what the model says a fresh object is
             ctx.agree('C11.fresh_object', dict(public_part(fobs), sim=fobs['sim'], emptyGrid=fobs['emptyGrid']), spec_final, inp)
-    # the empty time grid returns the shapes of a regular simulate (theorem C11_empty_grid_shape), on chi alone
+    # ---- (b') the property after EVERY call, not only at the end of the history: a deviation that a later call
+    # repairs (set_outputs / copy reset the sensitivity setting, set_administration rebuilds the tables) is a
+    # deviation.  Reference: the observables of `fresh (net prefix)` (Lean, spec side).  The first deviating
+    # prefix is then run as a history of its own, which compares chi with a freshly built chi object.
+    first_bad = None
+    for i in range(len(ops)):
+        want = public_part(lean_obs(spec[1][i + 1], False))
+        ok = (public[i] == want)
+        if i in mid_sims:
+            want_full = lean_obs(spec[1][i + 1])
+            ok = ok and mid_sims[i]['sim'] == want_full['sim'] and mid_sims[i]['emptyGrid'] == want_full['emptyGrid']
+        ctx.spec('C11.net_config/after_call', ok, dict(inp, after_step=i),
+                 {'history': public[i], 'fresh_object_of_the_net_configuration': want})
+        if not ok and first_bad is None:
+            first_bad = i
+    if first_bad is not None and first_bad < len(ops) - 1 and label != 'prefix':
+        run_history(ctx, kit, [list(o) for o in ops[:first_bad + 1]], first_bad + 1, 'prefix')
+    # the sensitivity setting is changed by enable_sensitivities only (theorems C11_only_enable_switches_on,
+    # C11_disable_switches_off, C11_enable_switches_on, C11_fix_keeps_sens_setting), on chi alone:
+    # has_sensitivities() after each successful call vs the call and has_sensitivities() before it
+    prev = False
+    for i, (op, oc) in enumerate(zip(ops, outcomes)):
+        now = public[i]['hasSens']
+        if oc == 'ok':
+            at = dict(inp, after_step=i)
+            if op[0] == 'sens':
+                ctx.spec('C11.sens_setting/as_requested', now == bool(op[1]), at, {'requested': op[1], 'reported': now})
+            elif op[0] == 'fix':
+                ctx.spec('C11.sens_setting/kept_by_fix', now == prev, at, {'before': prev, 'after': now})
+            elif not prev:
+                ctx.spec('C11.sens_setting/stays_off', not now, at, {'call': op[0], 'reported': now})
+        prev = now
+    # simulate returns the sensitivities exactly when has_sensitivities() says so, and the empty time grid returns
+    # the shapes of a regular simulate (theorem C11_empty_grid_shape), on chi alone
     for after, o in [(None, final)] + sorted(mid_sims.items()):
         if o.get('values') is not None:
+            at = inp if after is None else dict(inp, after_step=after)
+            ctx.spec('C11.simulate_returns_sens_iff_enabled', (o['sens_values'] is not None) == o['hasSens'], at,
+                     {'has_sensitivities': o['hasSens'], 'tuple_returned': o['sens_values'] is not None})
             cols = None if o['sens_values'] is None else len(o['sens_values'][0][0])
-            ctx.spec('C11.empty_grid_shape', o['emptyGrid'] == [len(o['values']), cols],
-                     inp if after is None else dict(inp, after_step=after),
+            ctx.spec('C11.empty_grid_shape', o['emptyGrid'] == [len(o['values']), cols], at,
                      {'empty_grid': o['emptyGrid'], 'regular': [len(o['values']), cols]})
     # simulate never raises after a history of configuration calls (theorem C11_simulate_never_raises)
     ctx.spec('C11.simulate_runs', final['applied'] != 'raises', inp, {'raised': final.get('raised')})
@@ -905,6 +996,33 @@ WITNESSES = [
     ('copy_with_empty_sens', [['wrap'], ['fix', [['central.drug_amount', 0], ['central.size', 1],
                                                   ['global.elimination_rate', 2]]],
                               ['sens', True, None], ['copy']]),
+    # the wrapper with NO free parameter: sensitivities on / off / release / re-fix in every order
+    ('all_fixed_on_off', [['wrap'], ['fix', [['central.drug_amount', 0], ['central.size', 1],
+                                              ['global.elimination_rate', 2]]],
+                          ['sens', True, None], ['sens', False, None]]),
+    ('on_all_fixed_off', [['wrap'], ['sens', True, None],
+                          ['fix', [['central.drug_amount', 0], ['central.size', 1], ['global.elimination_rate', 2]]],
+                          ['sens', False, None]]),
+    ('all_fixed_on_off_release', [['wrap'], ['fix', [['central.drug_amount', 0], ['central.size', 1],
+                                                      ['global.elimination_rate', 2]]],
+                                  ['sens', True, None], ['sens', False, None],
+                                  ['fix', [['global.elimination_rate', None]]]]),
+    ('all_fixed_on_release_off', [['wrap'], ['fix', [['central.drug_amount', 0], ['central.size', 1],
+                                                      ['global.elimination_rate', 2]]],
+                                  ['sens', True, None], ['fix', [['central.size', None]]], ['sens', False, None],
+                                  ['fix', [['central.size', 3]]]]),
+    ('all_fixed_in_two_calls_on_refix_off', [['sens', True, ['central.size']], ['wrap'],
+                                             ['fix', [['central.drug_amount', 0]]],
+                                             ['fix', [['central.size', 1], ['global.elimination_rate', 2]]],
+                                             ['fix', [['central.size', 3]]], ['sens', False, None],
+                                             ['fix', [['central.drug_amount', None], ['central.size', None],
+                                                      ['global.elimination_rate', None]]]]),
+    ('all_fixed_on_off_on_regimen', [['adm', 'central', 'drug_amount', False], ['reg', 0], ['wrap'],
+                                     ['fix', [['central.drug_amount', 0], ['dose.drug_amount', 1],
+                                              ['central.size', 2], ['dose.absorption_rate', 3],
+                                              ['global.elimination_rate', 4]]],
+                                     ['sens', True, None], ['sens', False, None], ['sens', True, None], ['reg', 1],
+                                     ['fix', [['dose.absorption_rate', None]]]]),
     ('names_swapped_across_two_calls', [['pn', [['central.size', 'V']]],
                                         ['pn', [['global.elimination_rate', 'central.size']]],
                                         ['adm', 'central', 'drug_amount', False], ['sens', True, ['central.size']]]),
@@ -943,6 +1061,13 @@ def exhaustive_alphabet_sens():
             ['fix', [['central.size', None], ['global.elimination_rate', 1]]]]
 
 
+def exhaustive_alphabet_all_fixed():
+    """after `wrap`: the wrapper with every parameter fixed — sensitivities on / off, release, outputs"""
+    return [['fix', [['central.drug_amount', 0], ['central.size', 1], ['global.elimination_rate', 2]]],
+            ['fix', [['global.elimination_rate', None]]], ['sens', True, None], ['sens', False, None],
+            ['out', ['central.drug_concentration']]]
+
+
 def exhaustive_alphabet_wrapped():
     return [['adm', 'central', 'drug_amount', False], ['reg', 2],
             ['pn', [['central.size', 'V'], ['global.lambda', 'lam']]], ['wrap'],
@@ -968,9 +1093,9 @@ def run(ctx):
             ctx.guard(run_history, ctx, kits['one_comp'], [list(o) for o in ops], len(ops), 'witness:' + label,
                       copy_check=True, rng=ctx.sub_rng(10 ** 6))
         if ctx.tier == 'quick':
-            n_cases, max_len = 200, 8
+            n_cases, max_len, n_focus = 200, 8, 30
         else:
-            n_cases, max_len = 1000, 20
+            n_cases, max_len, n_focus = 1000, 20, 120
             alpha = exhaustive_alphabet()
             idx = [[]]
             for depth in range(4):
@@ -984,6 +1109,15 @@ def run(ctx):
                 for s in idx:
                     ctx.guard(run_history, ctx, kits['one_comp'], [list(alpha[a]) for a in s], len(s),
                               'exhaustive-sens')
+            alpha = exhaustive_alphabet_all_fixed()
+            for prefix, max_depth in (([['wrap']], 4), ([['sens', True, None], ['wrap']], 3)):
+                idx = [[]]
+                for depth in range(max_depth):
+                    idx = [s + [a] for s in idx for a in range(len(alpha))]
+                    for s in idx:
+                        ctx.guard(run_history, ctx, kits['one_comp'],
+                                  [list(o) for o in prefix] + [list(alpha[a]) for a in s], len(prefix) + len(s),
+                                  'exhaustive-all-fixed')
             alpha = exhaustive_alphabet_wrapped()
             idx = [[]]
             for depth in range(3):
@@ -1005,6 +1139,13 @@ def run(ctx):
             kit = kits[names[int(rng.choice(len(names), p=weights))]]
             length = int(rng.integers(1, max_len + 1))
             ctx.guard(run_history, ctx, kit, Gen(rng, kit), length, 'random', copy_check=(i % 3 == 0), rng=rng)
+        # histories around the wrapper with no free parameter (every parameter fixed)
+        for i in range(n_focus):
+            rng = ctx.sub_rng(2 * 10 ** 6 + i)
+            kit = kits[names[int(rng.choice(len(names), p=weights))]]
+            length = int(rng.integers(3, max_len + 1))
+            ctx.guard(run_history, ctx, kit, Gen(rng, kit, focus='all_fixed'), length, 'random-all-fixed',
+                      sim_prob=0.3, copy_check=(i % 4 == 0), rng=rng)
     ctx.extra['models'] = names
     ctx.extra['refsim'] = 'reference integrator harness/refsim.py installed as myokit.Simulation'
 
